@@ -448,33 +448,30 @@ def _invalidation_frame(chk):
             "F3 syntactic", th)
 
     def th_apply():
+        # observed on a REAL dynamics service (no assumption on HOW the state is installed: setter or attributes):
+        # whatever the previous period, after apply_correction the service holds the corrected state and period, an empty
+        # cache and no trajectory / stability data computed for the old state
         import hiten.algorithms.types.services.orbits as so
         from hiten.algorithms.types.services.base import _DynamicsServiceBase as sb
-        log = []
-        class Dy(_Obj):
-            period = property(lambda self: None, lambda self, v: log.append(("period", v)))
-        dyn = Dy(reset=lambda *a: log.append(("reset",) + a), _initial_state=None)
-        stub = _Obj(domain_obj=_Obj(dynamics=dyn))
+        from pyvc.core import real_self
         cls = [c for c in vars(so).values() if isinstance(c, type) and "apply_correction" in vars(c)][0]
         payload = _Obj(x_full=[1.0, 0, 0, 0, 2.0, 0], half_period=1.25)
-        cls.apply_correction(stub, payload)
-        if ("reset",) not in log or ("period", 2.5) not in log or list(dyn._initial_state) != [1.0, 0, 0, 0, 2.0, 0]:
-            raise Refuted("apply_correction must reset the dynamics cache, install the corrected state and the full period",
-                          str(log))
-        # real dynamics service whose period ALREADY equals the corrected one: the state changes, so trajectory and
-        # stability data computed for the old state must not survive
-        class D(so._OrbitDynamicsService):
-            initial_guess = lambda self: None
-        D.__abstractmethods__ = frozenset()
-        real = object.__new__(D)
-        sb.__init__(real, "ORBIT")
-        real._initial_state, real._period, real._trajectory, real._stability_info = "OLD", 2.5, "TRAJ(old state)", "STAB(old state)"
-        cls.apply_correction(_Obj(domain_obj=_Obj(dynamics=real)), payload)
-        if real._trajectory is not None or real._stability_info is not None or real._period != 2.5:
-            raise Refuted("apply_correction leaves trajectory / stability data of the uncorrected state when the period does "
-                          "not change", str((real._trajectory, real._stability_info)),
-                          inputs={"period before": 2.5, "half_period": 1.25})
-    chk.obl("apply_correction: dynamics cache reset, corrected state installed, period = 2 * half period",
+        for before in (None, 2.5, 3.75):
+            real = real_self(so._OrbitDynamicsService)
+            sb.__init__(real, "ORBIT")
+            real._initial_state, real._period = "OLD", before
+            real._trajectory, real._stability_info = "TRAJ(old state)", "STAB(old state)"
+            real.get_or_create(("old", "entry"), lambda: "CACHED(old state)")
+            cls.apply_correction(real_self(cls, _domain_obj=_Obj(dynamics=real)), payload)
+            got = (list(real.initial_state), real.period, real._trajectory, real._stability_info, dict(real._cache._cache))
+            want = ([1.0, 0, 0, 0, 2.0, 0], 2.5, None, None, {})
+            if got != want:
+                raise Refuted(f"apply_correction (period before: {before}): the dynamics service is left with "
+                              f"(state, period, trajectory, stability, cache) = {got}",
+                              "want the corrected state, period = 2 * half_period, no trajectory / stability data of the "
+                              "uncorrected state and an empty cache", inputs={"period before": before, "half_period": 1.25})
+    chk.obl("apply_correction: corrected state and period = 2 * half period installed, cache empty, no trajectory / stability "
+            "data of the uncorrected state - whatever the previous period (None, equal, different)",
             "K2 postconditions", ["hiten.algorithms.types.services.orbits:apply_correction"], "B4 exact evaluation", th_apply)
 
 
